@@ -217,9 +217,11 @@ impl CaseExec for Exec {
                     }));
                 }
                 let ret = flow::load_rules_of_resource(&res, rules);
-                let ids: Vec<String> =
-                    flow::get_traffic_controller_list_for(&res).iter().map(|c| c.rule().id.clone()).collect();
-                format!("ret={} ctrls={}", ret.map(|b| b.to_string()).unwrap_or("err".into()), ids.join(","))
+                let ctrls = flow::get_traffic_controller_list_for(&res);
+                let ids: Vec<String> = ctrls.iter().map(|c| c.rule().id.clone()).collect();
+                // which statistic `generate_stat_for` gave each controller: the resource node's windows (g) or an own array (p)
+                let kinds: Vec<&str> = ctrls.iter().map(|c| if c.stat().reuse_global() { "g" } else { "p" }).collect();
+                format!("ret={} ctrls={} stats={}", ret.map(|b| b.to_string()).unwrap_or("err".into()), ids.join(","), kinds.join(","))
             }
             "iso.load" => {
                 let res = self.res(&op.s("res"));
